@@ -6,6 +6,7 @@ re-compares the input; the result header is checked for the original
 description, earlier entries and one numbered 'transformation' entry per step.
 """
 import itertools
+import re
 import random
 
 from ..monitors import immut
@@ -134,7 +135,7 @@ def header_check(ctx, label, before_items, T, steps_before):
             continue
         if k not in h or str(h[k]) != v:
             ctx.violation("%s:header-loses-entry" % label, "%s: entry %r=%r became %r" % (label, k, v, h.get(k)))
-    tkeys = [k for k in keys if k.startswith("transformation ")]
+    tkeys = [k for k in keys if re.match(r"transformation [0-9]+$", k)]
     if tkeys != ["transformation %d" % i for i in range(1, steps_before + 2)]:
         ctx.violation("%s:header-transformation-entries" % label, "%s: transformation entries are %r after %d earlier step(s)"
                       % (label, tkeys, steps_before))
@@ -193,6 +194,10 @@ def case_transformations(ctx, rseed, maxchain):
                     header_check(ctx, label, hb, T, steps)
                     steps += 1
                     F = T
+                    if length > 1 and r.random() < 0.4:
+                        # the owner of the intermediate formula annotates it before going on
+                        F.header[r.choice(["note %d" % steps, "command line", "checked", "transformation note"])] = "looked at after step %d" % steps
+                        ctx.count("annotated_between_steps")
                 if ok and F is not F0:
                     # probe the last link of the chain: its input is the previous formula
                     pass
